@@ -80,7 +80,7 @@ FAMILIES = {
     prefix=[dict(ev="BeginBlock", dt=1), dict(ev="Delegate", d="d0", v="v0", a="ast0", x="5"), dict(ev="Delegate", d="d1", v="v0", a="ast1", x="5"),
             dict(ev="EndBlock"), dict(ev="BeginBlock", dt=1)],
     gov_custom=[dict(a="ast0", weight="2"), dict(a="ast0", weight="0"), dict(a="ast1", weight="1"), dict(a="ast1", weight="0.5", rate="0.5", chgInt="1", wmin="0.1")],
-    quick=dict(depth=5, blocks=2), thorough=dict(depth=7, blocks=3), sim=dict(depth=24, blocks=8),
+    quick=dict(depth=5, blocks=2), thorough=dict(depth=6, blocks=3), sim=dict(depth=24, blocks=8),
   ),
   "gov": dict(
     doc="governance decision table: field classes x signer x asset state for create/update/delete/params, then end-of-block with the accepted parameters (C16 C17)",
